@@ -145,16 +145,17 @@ static void count_case (vf_rng *r)
 static void meta_case (vf_rng *r)
 {
     pixman_format_code_t f = pick_alpha (r);
-    int w = (int)vf_range (r, 1, 40), h = (int)vf_range (r, 1, 12), mode = (int)(vf_next (r) % 4);
+    int w = (int)vf_range (r, 1, 40), h = (int)vf_range (r, 1, 12), mode = (int)(vf_next (r) % 5);
     vf_buf A, B; if (!vf_buf_alloc (&A, f, w, h, 0, 0, vf_default_place (r))) return; if (!vf_buf_alloc (&B, f, w, h, 0, 0, vf_default_place (r))) { vf_buf_free (&A); return; }
     if (vf_chance (r, 1, 4)) { vf_buf_fill_random (&A, r); memcpy (B.base, A.base, A.bytes); } else { memset (A.base, 0, A.bytes); memset (B.base, 0, B.bytes); }
     pixman_image_t *ia = vf_buf_image (&A), *ib = vf_buf_image (&B);
     pixman_trapezoid_t t; gen_trap (r, &t, w, h, 0);
     char td[300]; tdesc (&t, td, sizeof td);
-    static const char *mn[] = { "abutting-horizontal-split", "abutting-shared-edge", "whole-pixel-offset", "triangle-decomposition" };
+    static const char *mn[] = { "abutting-horizontal-split", "abutting-shared-edge", "whole-pixel-offset", "triangle-decomposition", "same-line-different-endpoints" };
     vf_case_desc ("%s %s %dx%d %s", mn[mode], rp_name (f), w, h, td);
     vf_inflight ("%s %s %dx%d %s", mn[mode], rp_name (f), w, h, td);
     int judged = 1;
+    pixman_line_fixed_t mode4_line; memset (&mode4_line, 0, sizeof mode4_line); mode4_line.p2.y = 1; int mode4_unrep = 0;
     if (mode == 0) {
         pixman_trapezoid_t a = t, b = t;
         pixman_fixed_t cut = t.top + (pixman_fixed_t)vf_range (r, 0, (int64_t)t.bottom - t.top);
@@ -173,6 +174,34 @@ static void meta_case (vf_rng *r)
         pixman_rasterize_trapezoid (ia, &t, 0, 0);
         if (judged) { pixman_rasterize_trapezoid (ib, &a, 0, 0); pixman_rasterize_trapezoid (ib, &b, 0, 0); }
         /* with saturation the union and the two parts agree as long as no pixel saturates differently: only judge unsaturated destinations */
+    } else if (mode == 4) {
+        /* one edge line described by two different pairs of points P + i*(a,b): the shape, hence the coverage, is the same */
+        pixman_trapezoid_t u;
+        int64_t a = vf_chance (r, 1, 3) ? vf_range (r, -40, 40) : vf_range (r, -3000, 3000), b = vf_chance (r, 1, 3) ? vf_range (r, 1, 60) : vf_range (r, 1, 3000);
+        if (vf_chance (r, 1, 4)) a = vf_chance (r, 1, 2) ? -1 : 1;
+        int64_t span = ((int64_t)(h + 8) * 65536) / b + 2;
+        int64_t px0 = (int64_t)vf_range (r, 0, (int64_t)w * 65536), py0 = (int64_t)vf_range (r, -2 * 65536, (int64_t)h * 65536);
+        /* sit on / next to a sample column and a sample row now and then */
+        int n = depth_of (f);
+        if (vf_chance (r, 1, 2)) px0 = (px0 & ~0xffffLL) + x_first (n) + (int64_t)(vf_next (r) % n_xfrac (n)) * step_x (n) + vf_range (r, -1, 1);
+        if (vf_chance (r, 1, 2)) py0 = (py0 & ~0xffffLL) + y_first (n) + (int64_t)(vf_next (r) % n_yfrac (n)) * step_y (n);
+        int64_t i1 = vf_range (r, -span, span), j1 = i1 + vf_range (r, 1, span), i2 = vf_range (r, -span, span), j2 = i2 + vf_range (r, 1, span);
+        if (vf_chance (r, 1, 2)) { i1 = vf_range (r, 1, 300); j1 = i1 + vf_range (r, 1, span); }      /* first description starts below the top: the walker steps backwards */
+        pixman_line_fixed_t e1 = { { (pixman_fixed_t)(px0 + i1 * a), (pixman_fixed_t)(py0 + i1 * b) }, { (pixman_fixed_t)(px0 + j1 * a), (pixman_fixed_t)(py0 + j1 * b) } };
+        pixman_line_fixed_t e2 = { { (pixman_fixed_t)(px0 + i2 * a), (pixman_fixed_t)(py0 + i2 * b) }, { (pixman_fixed_t)(px0 + j2 * a), (pixman_fixed_t)(py0 + j2 * b) } };
+        int64_t lim = 0x70000000LL;
+        if (llabs (px0 + i1 * a) > lim || llabs (px0 + j1 * a) > lim || llabs (px0 + i2 * a) > lim || llabs (px0 + j2 * a) > lim || llabs (py0 + j1 * b) > lim || llabs (py0 + j2 * b) > lim || llabs (py0 + i1 * b) > lim || llabs (py0 + i2 * b) > lim) judged = 0;
+        t.top = (pixman_fixed_t)py0; t.bottom = t.top + (pixman_fixed_t)vf_range (r, 1, (int64_t)(h + 2) * 65536);
+        int which = vf_chance (r, 1, 2);
+        pixman_line_fixed_t other; other.p1.y = t.top - 65536; other.p2.y = t.bottom + 65536;
+        other.p1.x = which ? (pixman_fixed_t)(px0 - (int64_t)vf_range (r, 1, 20 * 65536)) : (pixman_fixed_t)(px0 + (int64_t)vf_range (r, 1, 20 * 65536)); other.p2.x = other.p1.x + (pixman_fixed_t)(a * ((t.bottom - t.top + 131072) / b));
+        u = t;
+        mode4_line = e1;
+        if (which) { t.right = e1; u.right = e2; t.left = other; u.left = other; } else { t.left = e1; u.left = e2; t.right = other; u.right = other; }
+        tdesc (&t, td, sizeof td);
+        vf_case_desc ("%s %s %dx%d %s | second description of the %s edge: (%x,%x)-(%x,%x)", mn[mode], rp_name (f), w, h, td, which ? "right" : "left", (unsigned)e2.p1.x, (unsigned)e2.p1.y, (unsigned)e2.p2.x, (unsigned)e2.p2.y);
+        if (!edges_representable (&u) || !edges_representable (&t)) mode4_unrep = 1;
+        if (judged) { pixman_rasterize_trapezoid (ia, &t, 0, 0); pixman_rasterize_trapezoid (ib, &u, 0, 0); }
     } else if (mode == 2) {
         int xo = (int)vf_range (r, -6, 6), yo = (int)vf_range (r, -4, 4);
         pixman_trapezoid_t s = t;
@@ -203,14 +232,32 @@ static void meta_case (vf_rng *r)
         vf_case_desc ("%s %s %dx%d triangle (%x,%x) (%x,%x) (%x,%x)", mn[mode], rp_name (f), w, h, (unsigned)tri.p1.x, (unsigned)tri.p1.y, (unsigned)tri.p2.x, (unsigned)tri.p2.y, (unsigned)tri.p3.x, (unsigned)tri.p3.y);
     }
     vf_count ("shapes", 1);
-    int unrep = mode != 3 && !edges_representable (&t);
+    int unrep = (mode != 3 && !edges_representable (&t)) || mode4_unrep;
     if (unrep) vf_count ("edge_x_not_representable_shapes", 1);
     if (FOCUS12 && judged) {
         int fx, fy; vf_count ("evaluations", (long)w * h); vf_count ("metamorphic_cases", 1);
         vf_label ("meta_modes", "%s/a%d", mn[mode], depth_of (f));
         int nonzero = 0; for (size_t i = 0; i < A.bytes; i++) if (A.base[i]) { nonzero = 1; break; }
         if (nonzero) vf_cell ("cells", vf_mix (vf_mix (100 + mode, depth_of (f)), vf_hash (A.base, A.bytes, 3)));
-        if (!images_equal (&A, &B, &fx, &fy)) {
+        int differ = !images_equal (&A, &B, &fx, &fy);
+        if (differ && mode == 4) {
+            /* two descriptions of one line may be snapped to 1/65536 differently (the same resolution limit as the sample-count oracle):
+             * a pixel may differ by at most the number of its samples that lie within 2/65536 of the line */
+            int n = depth_of (f), explained = 1;
+            for (int y = 0; y < h && explained; y++) for (int x = 0; x < w; x++) {
+                int va = (int)vf_get_px (vf_buf_row (&A, y), A.bpp, x), vb = (int)vf_get_px (vf_buf_row (&B, y), B.bpp, x);
+                if (va == vb) continue;
+                int amb = 0;
+                for (int k = 0; k < n_yfrac (n); k++) { int64_t yy = (int64_t)y * 65536 + y_first (n) + (int64_t)k * step_y (n);
+                    if (!(t.top <= yy && yy < t.bottom)) continue;
+                    for (int j = 0; j < n_xfrac (n); j++) { int64_t sx = (int64_t)x * 65536 + x_first (n) + (int64_t)j * step_x (n);
+                        if (edge_cmp (&mode4_line, yy, sx - 2, NULL) >= 0 && edge_cmp (&mode4_line, yy, sx + 2, NULL) <= 0) amb++; } }
+                int dv = va > vb ? va - vb : vb - va;
+                if (dv > amb) { explained = 0; fx = x; fy = y; break; }
+            }
+            if (explained) { differ = 0; vf_count ("same_line_pairs_differing_only_at_snapped_samples", 1); }
+        }
+        if (differ) {
             char key[96]; snprintf (key, sizeof key, "C12:%s%s:a%d", unrep ? "edge-x-not-representable:" : "", mn[mode], depth_of (f));
             vf_violation (key, "pixel (%d,%d): %u in one rendering, %u in the other", fx, fy, vf_get_px (vf_buf_row (&A, fy), A.bpp, fx), vf_get_px (vf_buf_row (&B, fy), B.bpp, fx));
         }
